@@ -45,6 +45,8 @@ def check(ctx):
     edges.check_exhaustive_scans(ctx)
     # the connection part of the instance: source/target sides of the connection-matrix code mirror each other
     # (index translations, degree limits), and an encoder cached on disk is only re-used for the same settings
+    from . import c11 as _c11
+    _c11.existence_patterns(ctx)        # every existence scenario is mapped to a pattern that exists (no index past the list)
     from ..rules import symmetry
     symmetry.check_side_symmetry(ctx)
     from .c12 import cache_keys
